@@ -65,7 +65,14 @@ impl Apply for PairAdjustment<'_> {
 
         let records = match self {
             Self::Format1 { sets, .. } => {
-                sets.get(first_glyph_coverage_index)?.get(second_glyph)?
+                match sets.get(first_glyph_coverage_index)?.get(second_glyph) {
+                    Some(v) => v,
+                    None => {
+                        ctx.buffer
+                            .unsafe_to_concat(Some(ctx.buffer.idx), Some(iter.index() + 1));
+                        return None;
+                    }
+                }
             }
             Self::Format2 {
                 classes, matrix, ..
